@@ -51,3 +51,8 @@ Definition backup_run (c : pcfg) (s0 : pstate) (ts2 ts5 : Z) (evM evA : list eve
   let (s4, _) := run c s3 evA in
   let (s5, _) := savepoint c (set_stage s4 BKP_WAL_COPY2) ts5 true in        (* stage 5: savepoint, copy the rest *)
   (mk_image main (p_log s5), set_stage s5 0).
+
+(* entry of iwal_online_backup: under the wal mutex, `if (wal->bkp_stage) return IWKV_ERROR_BACKUP_IN_PROGRESS;`
+   else bkp_stage = BKP_STARTED.  None = refused: nothing is touched (neither the state nor the target file). *)
+Definition backup_start (s : pstate) : option pstate :=
+  if p_stage s =? 0 then Some (set_stage s BKP_STARTED) else None.
